@@ -130,7 +130,7 @@ class Sym:
     lo/hi : interval bounds (hi may be None = unbounded)
     """
 
-    __slots__ = ("bits", "poly", "nonzero", "lo", "hi", "origin")
+    __slots__ = ("bits", "poly", "nonzero", "lo", "hi", "origin", "view", "sum_of", "tag")
 
     def __init__(self, bits=None, poly=None, nonzero=False, lo=0, hi=None, origin=None):
         if bits is not None:
@@ -293,6 +293,10 @@ def sym_binop(op, a, b):
         else:
             return Unknown("shift by dynamic amount")
     elif op == "&":
+        if ab is not None and isinstance(b, int) and b >= 0 and ((1 << len(ab)) - 1) & ~b == 0:
+            return a          # the mask covers every possible bit: value unchanged (keeps the polynomial view)
+        if bb is not None and isinstance(a, int) and a >= 0 and ((1 << len(bb)) - 1) & ~a == 0:
+            return b
         if ab is not None and bb is not None:
             n = min(len(ab), len(bb))
             out = []
